@@ -469,7 +469,10 @@ def shrink(prop, cfg, rec):
     if not cand_fn:
         return rec
     best = rec
+    t_end = time.time() + 180          # shrinking is a convenience: bounded in time, and skipped for huge requests
     for _ in range(60):
+        if time.time() > t_end or len(best["req"]) > 30000:
+            break
         cands = cand_fn(best["req"].split(" "))
         if not cands:
             break
